@@ -1,6 +1,9 @@
 #!/bin/bash
 # Runs every quick check under several seeds; prints one line per (seed, check). Used to see that checks stay silent on the unchanged tree.
 cd "$(dirname "$0")/.."
+if [ -n "${VP_RUN_REPO:-}" ]; then
+  sed -i "s|path = \"/repo\"|path = \"$VP_RUN_REPO\"|" harness/Cargo.toml fuzz/Cargo.toml
+fi
 SEEDS="${SEEDS:-1 2 3 4 5}"
 IDS="${IDS:-C01 C02 C03 C04 C05 C06 C07 C08 C09 C10 C11 C12 C13 C14 C15 C16 C17 C18 C19 C20}"
 TIER="${TIER:-quick}"
